@@ -21,7 +21,7 @@ VERIF = os.path.dirname(os.path.dirname(os.path.dirname(os.path.abspath(__file__
 
 # repairs present in /repo (identifiers of spec/Savable.tla: FL1 recorded loader read from the user block, FL2 recorded
 # loader instantiated, FL3 nested savables saved with the save context, FFC cancelled futures can be saved)
-FIXES = []
+FIXES = ['FL1', 'FL2', 'FL3', 'FFC']      # repaired in /repo: d4b788d (FL1, FL2), 8989551 (FL3), 79c2991 (FFC)
 ALL_FIXES = ['FL1', 'FL2', 'FL3', 'FFC']
 DEVIATIONS = ['D19a', 'D19b', 'D19c']
 KINDS = ['value', 'none', 'method', 'sav1', 'sav2', 'futP', 'futR', 'futE', 'futC']
